@@ -82,3 +82,10 @@ Proof. vm_compute. reflexivity. Qed.
 Example stale_packet_dispatched_again :
   obs_of (run_stream_stale (fun _ _ => []) 0 None reads_fault (mkSt [ra] []) []) = [1; 1; 0; 1; 0; 1; 0; 1; 1].
 Proof. vm_compute. reflexivity. Qed.
+
+(* ---- the answer check with another thread inserting a pattern during the loop (seeded C07-o) *)
+Definition other_ins : nat -> list kop := fun k => match k with O => [KIns 9] | _ => [] end.
+Example snapshot_scan_survives_insertion : answer_scan [7] other_ins = ([7], [7; 9], true).
+Proof. vm_compute. reflexivity. Qed.
+Example live_scan_raises_on_insertion : answer_scan_live [7; 8] other_ins = ([7], [7; 8; 9], false).
+Proof. vm_compute. reflexivity. Qed.
